@@ -124,6 +124,24 @@ def eval_case(case) -> Outcome:
                 out.nontrivial = True
                 out.labels.add(f"{side}-level-inside-range")
             if not _levels_ok(rows):
+                # mixed ladder (some level glides, or two levels are close): only the lowest-grade level is decided, and only if it is
+                # unambiguous - isothermal, and the coldest hot (hottest cold) utility by supply temperature on the real and on the
+                # shifted scale with at least 1 K to the next supply temperature.  Whatever the others do, it must carry the
+                # largest duty that keeps the utility GCC under the pocket-free GCC (LP over all duties, this one maximised).
+                if len(rows) >= 2 and len({r["name"] for r in rows}) == len(rows):
+                    sgn = 1 if side == "hot" else -1
+                    by_shift = sorted(rows, key=lambda r: sgn * r["tsf"])
+                    by_real = sorted(rows, key=lambda r: sgn * Fr(repr(float(r["t_supply"]))))
+                    first = by_shift[0]
+                    iso = abs(first["tsf"] - first["ttf"]) <= Fr(repr(PHASE[0])) + Fr(1, 10000)
+                    clear = by_real[0]["name"] == first["name"] and abs(by_shift[1]["tsf"] - first["tsf"]) >= 1 and abs(Fr(repr(float(by_real[1]["t_supply"]))) - Fr(repr(float(first["t_supply"])))) >= 1
+                    if iso and clear:
+                        out.labels.add(f"{side}-mixed-ladder-first-level-decided")
+                        opt = U.lex_optimum(side, rows, Te, Ne, pinch, total, first_only=True)
+                        if opt is not None:
+                            q = opt[rows.index(first)]
+                            if abs(first["q"] - q) > tol:
+                                out.fail(f"C04.{side}_lowest_grade_first_mixed", f"{where}: the lowest-grade {side} utility {first['name']} (isothermal, T*={float(first['tsf'])}) carries {first['q']!r} but could carry {q!r} with the utility GCC still under the pocket-free GCC; all: {[(x['name'], x['q']) for x in rows]}")
                 continue
             out.labels.add(f"{side}-lp-applicable")
             opt = U.lex_optimum(side, rows, Te, Ne, pinch, total)
